@@ -25,7 +25,6 @@ def main():
             return mod.replay(ctx, r)
         if hasattr(mod, 'prepare'):          # translator kernels: regenerate Sio/Generated before building
             mod.prepare(ctx)
-        common.build_driver()
         mod.run(ctx)
         return ctx.finish()
     except common.Infra as e:
